@@ -26,6 +26,9 @@ pub const ROWS: &[Row] = &[
     Row { backend: "rust", variant: Some("async"), feature: "fixed-length-list",
           source_snippet: "name == \"named-fixed-length-list.wit-async\"",
           why: "\"Named fixed-length lists don't work with async yet\"; read as: any fixed-length list under --async=all" },
+    Row { backend: "rust", variant: None, feature: "fixed-length-list+async",
+          source_snippet: "name == \"named-fixed-length-list.wit-async\"",
+          why: "same declaration, when the async lowering is requested by the WIT itself (`async func`, future, stream) instead of --async=all" },
     // (`wasi-http-borrowed-duplicate`, `more-variants.wit-borrowed-duplicate` are excluded by
     //  file name for a bug of the *generated code*; generation itself succeeds on both, so no
     //  feature row is derived from them.)
@@ -68,6 +71,8 @@ pub const ROWS: &[Row] = &[
           source_snippet: "config.error_context", why: "tests flagged error-context" },
     Row { backend: "moonbit", variant: Some("async"), feature: "fixed-length-list",
           source_snippet: "name == \"named-fixed-length-list.wit-async\"", why: "fixed-length lists under --async=all" },
+    Row { backend: "moonbit", variant: None, feature: "fixed-length-list+async",
+          source_snippet: "name == \"named-fixed-length-list.wit-async\"", why: "same declaration, async requested by the WIT itself" },
     // ---- d ----------------------------------------------------------------------------------
     Row { backend: "d", variant: None, feature: "async",
           source_snippet: "config.async_", why: "every test flagged async" },
@@ -241,7 +246,6 @@ pub fn features(resolve: &Resolve, world: WorldId) -> BTreeSet<&'static str> {
             }
         }
     }
-    let never = |_: &TypeDef| false;
     let is_ec = |t: &Type| matches!(t, Type::ErrorContext);
     for (_, def) in resolve.types.iter() {
         match &def.kind {
@@ -314,10 +318,12 @@ pub fn features(resolve: &Resolve, world: WorldId) -> BTreeSet<&'static str> {
             }
         }
     }
-    let _ = never;
     if f.contains("error-context") {
         // every error-context test is also flagged `//@ async = true`
         f.insert("async");
+    }
+    if f.contains("async") && f.contains("fixed-length-list") {
+        f.insert("fixed-length-list+async");
     }
     let w = &resolve.worlds[world];
     for (key, item) in w.imports.iter() {
